@@ -84,6 +84,9 @@ class DirContains(Matcher):
         else:
             self.matcher = Equals(sorted(filenames))
 
+    def __str__(self):
+        return "DirContains(matcher=%s)" % self.matcher
+
     def match(self, path):
         mismatch = DirExists().match(path)
         if mismatch is not None:
@@ -130,7 +133,7 @@ class FileContains(Matcher):
             f.close()
 
     def __str__(self):
-        return "File at path exists and contains %s" % self.contents
+        return "File at path exists and contains %s" % self.matcher
 
 
 class HasPermissions(Matcher):
@@ -148,6 +151,9 @@ class HasPermissions(Matcher):
         super().__init__()
         self.octal_permissions = octal_permissions
 
+    def __str__(self):
+        return f"HasPermissions({self.octal_permissions!r})"
+
     def match(self, filename):
         permissions = oct(os.stat(filename).st_mode)[-4:]
         return Equals(self.octal_permissions).match(permissions)
@@ -163,6 +169,9 @@ class SamePath(Matcher):
     def __init__(self, path):
         super().__init__()
         self.path = path
+
+    def __str__(self):
+        return f"SamePath({self.path!r})"
 
     def match(self, other_path):
         def f(x):
@@ -181,6 +190,9 @@ class TarballContains(Matcher):
         super().__init__()
         self.paths = paths
         self.path_matcher = Equals(sorted(self.paths))
+
+    def __str__(self):
+        return f"TarballContains({self.paths!r})"
 
     def match(self, tarball_path):
         # Open underlying file first to ensure it's always closed:
